@@ -97,6 +97,7 @@ class Tracer:
     # "strict caller" scope: while the outermost watched frame of the package is executing, numpy floating-point
     # events raise and warnings are errors (the caller's process-wide settings); harness code never runs under it
     strict = None  # None | dict of np.seterr keywords
+    handler_errors: list = []  # tracebacks of monitor handlers that raised (see _handler_failed)
 
     def __init__(self, keep_log: bool = False, keep_children: bool = False):
         self._watched: dict[types.CodeType, tuple] = {}
@@ -215,10 +216,21 @@ class Tracer:
                 ev.pre = w[1](ev)
             if u is not None and u[1] is not None:
                 ev.upre = u[1](ev)
+        except Exception:  # noqa: BLE001
+            self._handler_failed(name, 'entry')
         finally:
             self._busy = False
         if Tracer.strict is not None:
             self._enter_strict()
+
+    def _handler_failed(self, name, where):
+        """A monitor's own handler raised. The exception must not travel into the monitored call (there it would look
+        like the package's exception, and a driver's `except` would swallow the monitor's bug together with whatever
+        the monitor was about to report): it is recorded, and the worker makes the run inconclusive."""
+        import traceback
+
+        if len(Tracer.handler_errors) < 20:
+            Tracer.handler_errors.append(f'{where} handler of {name}: ' + traceback.format_exc(limit=8)[-1500:])
 
     def _enter_strict(self):
         import decimal
@@ -288,6 +300,8 @@ class Tracer:
                 u[2](ev)
             if self.any_return is not None:
                 self.any_return(ev)
+        except Exception:  # noqa: BLE001
+            self._handler_failed(ev.name, 'exit')
         finally:
             self._busy = False
         if Tracer.strict is not None and st:
